@@ -179,7 +179,8 @@ class SimOps:
         ops = []
         interface_dict = dict((n, i) for i, n in enumerate(circuit.s_nodes))
         for n in circuit.topological_order():
-            if n in interface_dict:
+            # a port that is a fork with an input line is an output only (see Circuit.io_nodes); its readers see the driven value
+            if n in interface_dict and not (n.kind == '__fork__' and len(n.ins) > 0 and n.ins[0] is not None):
                 inp_idx = self.ppi_offset + interface_dict[n]
                 if len(n.outs) > 0 and n.outs[0] is not None:  # first output of a PI/PPI
                     ops.append((BUF1, n.outs[0].index, inp_idx, self.zero_idx, self.zero_idx, self.zero_idx, *a_ctrl[n.outs[0]]))
@@ -224,9 +225,9 @@ class SimOps:
         stems = np.zeros(self.c_locs_len, dtype='int32') - 1  # default to -1: 'no fanout line'
         if strip_forks:
             for f in circuit.forks.values():
-                if f in interface_dict or len(f.ins) == 0 or f.ins[0] is None: continue  # ports are sources, they keep their own lines
+                if len(f.ins) == 0 or f.ins[0] is None: continue  # input ports are sources, they keep their own lines
                 prev_line = f.ins[0]
-                while prev_line.driver.kind == '__fork__' and prev_line.driver not in interface_dict:
+                while prev_line.driver.kind == '__fork__' and len(prev_line.driver.ins) > 0 and prev_line.driver.ins[0] is not None:
                     prev_line = prev_line.driver.ins[0]
                 stem_idx = prev_line.index
                 for ol in f.outs:
